@@ -8,6 +8,8 @@ drv_bytes: one script line = one op sequence on a fresh object
   stream | write <payload> ; wbyte <b> ; wbool <0|1> ; wi16 <d> ; wi32 <d> ; wi64 <d> ; read <k> ; rbyte ;
            tidy ; reset ; seek <off> <whence>
 
+  item = op | `rep <k> ( op , op , ... )` (k rounds of the body; `$` in the body = round number mod 251)
+  op   = [<letter>:] <operation>  (object selector, default `a`: independent model instances in one case)
   <payload> = hex string | `-` (empty) | `#<n>:<s>` (n bytes, byte j = (s+j) mod 256)
             | `@<n>:<s>` (n bytes, byte j = byte (j mod 4) of the little-endian uint32 (s<<22)+j/4; large chunks)
 
@@ -33,13 +35,23 @@ def crcByte (crc : UInt32) (b : Nat) : UInt32 :=
 
 def crc32 (bs : List Nat) : UInt32 := (bs.foldl crcByte 0xFFFFFFFF) ^^^ 0xFFFFFFFF
 
+/-- CRC-32 and length in one pass -/
+def crcLen (bs : List Nat) : UInt32 × Nat :=
+  let rec go : List Nat → UInt32 → Nat → UInt32 × Nat
+    | [], c, n => (c ^^^ 0xFFFFFFFF, n)
+    | b :: rest, c, n => go rest (crcByte c b) (n + 1)
+  go bs 0xFFFFFFFF 0
+
 def hex8 (x : UInt32) : String :=
   let n := x.toNat
   String.ofList ((List.range 8).map (fun i => hexChar (n / 16 ^ (7 - i) % 16)))
 
 /-- byte string rendering: hex up to 16 bytes, else length and CRC-32 -/
 def rd (bs : List Nat) : String :=
-  if bs.length ≤ 16 then toHex bs else s!"{bs.length}:{hex8 (crc32 bs)}"
+  if (bs.drop 16).isEmpty then toHex bs
+  else
+    let r := crcLen bs
+    s!"{r.2}:{hex8 r.1}"
 
 def rdOpt : Option (List Nat) → String
   | some bs => rd bs
@@ -98,24 +110,41 @@ def bObserve (b : Buffer) : Buffer × String :=
   let pos := match r.2 with
     | .seek ret .nil => toString ret
     | _ => "bad"
-  -- String() is rendered separately from Bytes() only if the two model values differ (saves one CRC pass per op)
-  let bv := b.bytes?
-  let st := b.string?
-  let sby := rdOpt bv
-  let sst := if st == bv then sby else rdOpt st
-  (r.1, joinSp [sby, toString b.len, sst, pos, toString b.capacity])
+  -- String() of the model is by definition the same value as Bytes() (the `example` below): rendered once
+  let sby := rdOpt b.bytes?
+  (r.1, joinSp [sby, toString b.len, sby, pos, toString b.capacity])
+
+example (b : Buffer) : b.string? = b.bytes? := rfl
+
+/-- object selector `<letter>:` in front of an op (default object `a`) -/
+def selector (ws : List String) : Char × List String :=
+  match ws with
+  | w :: rest =>
+    match w.toList with
+    | [c, ':'] => if 'a' ≤ c ∧ c ≤ 'z' then (c, rest) else ('a', ws)
+    | _ => ('a', ws)
+  | [] => ('a', ws)
+
+def lookupD {α : Type} (d : α) (k : Char) : List (Char × α) → α
+  | [] => d
+  | (k', v) :: rest => if k' = k then v else lookupD d k rest
+
+def update {α : Type} (k : Char) (v : α) : List (Char × α) → List (Char × α)
+  | [] => [(k, v)]
+  | (k', v') :: rest => if k' = k then (k, v) :: rest else (k', v') :: update k v rest
 
 def bRun (ops : List String) : String :=
-  let rec go (b : Buffer) : List String → List String → List String
+  let rec go (objs : List (Char × Buffer)) : List String → List String → List String
     | [], acc => acc.reverse
     | o :: rest, acc =>
-      match bParse (words o) with
+      let (sel, ws) := selector (words o)
+      match bParse ws with
       | none => (("bad-op") :: acc).reverse
       | some (op, tag) =>
-        let r := b.step op
+        let r := (lookupD Buffer.init sel objs).step op
         let ob := bObserve r.1
-        go ob.1 rest ((bOut tag r.2 ++ " / " ++ ob.2) :: acc)
-  " ; ".intercalate (go Buffer.init ops [])
+        go (update sel ob.1 objs) rest ((bOut tag r.2 ++ " / " ++ ob.2) :: acc)
+  " ; ".intercalate (go [] ops [])
 
 /- ---------------- Stream ---------------- -/
 
@@ -154,24 +183,53 @@ def sObserve (s : Stream) : String :=
   joinSp [rdOpt s.bytes?, toString s.len, toString s.position]
 
 def sRun (ops : List String) : String :=
-  let rec go (s : Stream) : List String → List String → List String
+  let rec go (objs : List (Char × Stream)) : List String → List String → List String
     | [], acc => acc.reverse
     | o :: rest, acc =>
-      match sParse (words o) with
+      let (sel, ws) := selector (words o)
+      match sParse ws with
       | none => (("bad-op") :: acc).reverse
       | some (op, tag) =>
-        let r := s.step op
-        go r.1 rest ((sOut tag r.2 ++ " / " ++ sObserve r.1) :: acc)
-  " ; ".intercalate (go Stream.init ops [])
+        let r := (lookupD Stream.init sel objs).step op
+        go (update sel r.1 objs) rest ((sOut tag r.2 ++ " / " ++ sObserve r.1) :: acc)
+  " ; ".intercalate (go [] ops [])
+
+def maxExpandedOps : Nat := 50000
+
+/-- `rep <k> ( op , op , ... )` ↦ k copies of the body, `$` replaced by the round number mod 251 -/
+def expand (items : List String) : Option (List String) :=
+  let rec go : List String → List String → Option (List String)
+    | [], acc => some acc.reverse
+    | it :: rest, acc =>
+      match words it with
+      | "rep" :: k :: "(" :: more =>
+        match k.toNat?, more.reverse with
+        | some k, ")" :: revBody =>
+          let body := ((" ".intercalate revBody.reverse).splitOn ",").map (fun s => s.trimAscii.toString)
+            |>.filter (· ≠ "")
+          if k > maxExpandedOps ∨ acc.length + k * body.length > maxExpandedOps then none
+          else
+            let rounds := (List.range k).foldl
+              (fun a i => body.foldl (fun a part => part.replace "$" (toString (i % 251)) :: a) a) acc
+            go rest rounds
+        | _, _ => none
+      | "rep" :: _ => none
+      | _ => go rest (it :: acc)
+  go items []
 
 def step (_ : Unit) (line : String) : Unit × String :=
   match line.splitOn " | " with
   | [head, body] =>
-    let ops := (body.splitOn ";").map (fun s => s.trimAscii.toString) |>.filter (· ≠ "")
-    if ops.isEmpty then ((), "noop")
-    else if head.trimAscii.toString = "buffer" then ((), bRun ops)
-    else if head.trimAscii.toString = "stream" then ((), sRun ops)
-    else ((), "bad-op")
+    let items := (body.splitOn ";").map (fun s => s.trimAscii.toString) |>.filter (· ≠ "")
+    let h := head.trimAscii.toString
+    if h ≠ "buffer" ∧ h ≠ "stream" then ((), "bad-op")
+    else
+      match expand items with
+      | none => ((), "bad-op")
+      | some ops =>
+        if ops.isEmpty then ((), "noop")
+        else if h = "buffer" then ((), bRun ops)
+        else ((), sRun ops)
   | [""] => ((), "")
   | _ => ((), "bad-op")
 
